@@ -27,6 +27,8 @@ def run_call(c, variant):
             rows = torch.tensor(c["rows"], dtype=torch.int64).reshape(-1, 4)
             form = variant % 3
             dtype = [torch.int64, torch.int32, torch.float32, torch.uint8][(variant // 3) % 4]
+            if dtype == torch.uint8 and len(c["rows"]) > 20:
+                dtype = torch.int64          # counts are kept within the dtype range (at most 190 pairs for uint8)
             if op.startswith("count"):
                 X = rows[:, :2]
                 if form == 1:
